@@ -22,7 +22,7 @@ PROPERTY = "C01"
 TITLE = "An array check decides shape exactly as the dim-string language says"
 
 SINGLE = ["_", "3", "1", "a", "b", "#a", "#b", "#3", "#1", "a+1", "#a+1", "a-b", "2*a", "a//2",
-          "b%3", "{n}+1", "#{n}", "a*b"]
+          "b%3", "{n}+1", "#{n}", "a*b", "n+2"]
 MULTI = ["*v", "*#v", "...", "*_"]
 TOKENS = SINGLE + MULTI
 
@@ -239,7 +239,9 @@ def scenario(inst, V, mode="C01"):
         out["obs"] = dict(verdict=got if not isinstance(got, int) else D.VERDICT[got],
                           single=post["single"], variadic=post["variadic"])
 
-    if "{n}" in inst["dims"]:
+    # "n+2" names the *argument* n as if it were an axis: arguments are only visible inside
+    # {...}, so this is an unbound axis name (AnnotationError), whatever the argument's value
+    if "{n}" in inst["dims"] or "n+2" in inst["dims"]:
         @jaxtyped(typechecker=None)
         def f(n, run):
             run({"n": base.core.lift(n)})
